@@ -68,7 +68,9 @@ func genC17(r *Rand, tier string, i int) *h.Scenario {
 	if period == 0 || period > 1e9 {
 		period = 1e8
 	}
-	sleep := func() h.Op { return h.Op{K: h.OpSleep, D: []int64{1e3, period / 2, 3 * period, 12 * period}[r.Intn(4)]} }
+	sleep := func() h.Op {
+		return h.Op{K: h.OpSleep, D: []int64{1e3, period / 2, 3 * period, 12 * period}[r.Intn(4)]}
+	}
 	// bystanders around the predecessor so that "position" means something
 	var ops []h.Op
 	nBy := r.Range(0, 3)
